@@ -351,6 +351,63 @@ func d36Family(c *collector) {
 	}
 }
 
+// a FIXED signal (held by every group) with DIFFERENT neighbours per group and unequal free space behind it:
+// group 0 has a follower A behind a gap g0, group 1 a follower B behind a gap g1 that either leaves room or
+// fills the group; the fixed signal then grows by d (SetType, or AddValue / UpdateIndex for a fixed enum
+// signal). The change must be refused as a whole when ONE group has no room, and nothing may move.
+func fixedGroups(c *collector) {
+	n := 0
+	gsize := 16
+	for _, attachedTo := range []int{0, 1} { // detached multiplexer / multiplexer in a message
+		for _, kind := range []string{"std", "enum-add", "enum-upd"} {
+			for _, g0 := range []int{0, 1, 4} {
+				for _, g1 := range []int{0, 1, 4} {
+					for _, fullB := range []bool{false, true} {
+						for _, d := range []int{1, 2, 4, 6} {
+							var ops []op
+							m := 0
+							if attachedTo == 1 {
+								ops = append(ops, mk("newmsg", 0, 0, 8))
+							}
+							ops = append(ops, mk("newmux", 2, 0, gsize)) // signal 0
+							fsize := 3
+							if kind == "std" {
+								ops = append(ops, mk("newstd", 0, 0, fsize)) // signal 1 = F
+							} else {
+								// enum with max index 7 (3 bits); value 0
+								ops = append(ops, op{k: "newenum"}, mk("addvalue", 0, 0, 7), mk("newenumsig", 0, 0, 0))
+							}
+							bsize := 2
+							if fullB {
+								bsize = gsize - fsize - g1
+							}
+							ops = append(ops, mk("newstd", 0, 0, 2), mk("newstd", 0, 0, bsize)) // signals 2 = A, 3 = B
+							if attachedTo == 1 {
+								ops = append(ops, mk("append", m, 0, 0))
+							}
+							ops = append(ops, op{k: "muxinsert", a: 0, b: 1, z: 0, fix: true},
+								op{k: "muxinsert", a: 0, b: 2, z: fsize + g0, gids: []int{0}},
+								op{k: "muxinsert", a: 0, b: 3, z: fsize + g1, gids: []int{1}})
+							switch kind {
+							case "std":
+								ops = append(ops, mk("settype", 1, 0, fsize+d))
+							case "enum-add":
+								ops = append(ops, mk("addvalue", 0, 0, 1<<uint(fsize+d-1)))
+							case "enum-upd":
+								ops = append(ops, mk("updateindex", 0, 0, 1<<uint(fsize+d-1)))
+							}
+							// afterwards: an edit in each group, so that a half-applied change shows
+							ops = append(ops, mk("muxshl", 0, 2, 1), mk("muxshr", 0, 3, 1), mk("settype", 2, 0, 1))
+							n++
+							c.add(replay(ops, true), "fixed-groups", fmt.Sprintf("fixed-groups-%d", n))
+						}
+					}
+				}
+			}
+		}
+	}
+}
+
 // histories kept from earlier findings (always run first)
 var corpus = map[string][]string{
 	"c01": {
@@ -468,6 +525,7 @@ func main() {
 
 	growGaps(c)
 	d36Family(c)
+	fixedGroups(c)
 
 	nRandom, nOps, depth := 400, 30, 3
 	if mode == "c07" {
